@@ -420,6 +420,21 @@ partial def loop (inp out : IO.FS.Stream) (st : St) : IO St := do
     loop inp out { st with stats := stats, nHist := st.nHist + 1, nOps := st.nOps + 1,
                            nK := st.nK + (lines.filter (·.startsWith "K ")).length,
                            nA := st.nA + (lines.filter (·.startsWith "A ")).length }
+  | "L" :: hid :: _steps :: instr :: verdict :: _ =>
+    -- a long environment run judged in the harness by the model-free oracles (shadow replay, one shuffle per step)
+    let st := finishHist st
+    let nInstr := (val instr).toNat?.getD 0
+    let lines : List String :=
+      if verdict == "ok" then []
+      else
+        let what := (verdict.drop 4).toString
+        let clause := ((what.splitOn "@").headD what)
+        let aud := if clause.startsWith "generator" then "RNG" else "SH"
+        [s!"A {aud} {hid} 0 {clause} tr=1 op=step"]
+    for l in lines do emit out l
+    loop inp out { st with stats := bump (bump st.stats "long:histories") (if nInstr > 1024 then "long:more_than_1024_instructions" else "long:short"),
+                           nHist := st.nHist + 1, nOps := st.nOps + nInstr, nNontrivial := st.nNontrivial + 1,
+                           nA := st.nA + lines.length }
   | "FO" :: rest =>
     let st := finishHist st
     let (lines, tags) := handleFO rest
